@@ -1,5 +1,6 @@
 """C07 - neutron data of every element and isotope are those of the embedded table."""
 from contracts import nsf as N
+from contracts import core as K
 from contracts import loaders as L
 
 ID = "C07"
@@ -14,12 +15,14 @@ EXPLANATION = ("Closed obligations (eval, exhaustive): all 364 rows x 11 fields,
 
 
 def units(tier):
-    return [N.U_SBW_PLAIN, N.U_SBW_TABLE, N.U_WAVELENGTH, N.U_ENERGY] + L.U_NSF_ROW
+    return [N.U_SBW_PLAIN, N.U_SBW_TABLE, N.U_WAVELENGTH, N.U_ENERGY] + L.U_NSF_ROW + [K.L_REGISTRATION]
 
 
 def runner_tasks(tier):
     return [{"module": "c07", "task": "eval_tables", "kind": "eval", "clause": "all rows and fields, absent atoms, fallbacks"},
-            {"module": "c07", "task": "energy_tables", "kind": "eval", "clause": "all nodes of the energy-dependent tables"}]
+            {"module": "c07", "task": "energy_tables", "kind": "eval", "clause": "all nodes of the energy-dependent tables"},
+            {"module": "stateful", "task": "C07", "name": "stateful", "kind": "bounded", "clause": "re-used wavelength buffers; caller's array untouched"},
+            {"module": "c09", "task": "steps", "name": "first-touch steps", "kind": "eval", "arg": {"groups": ["neutron"]}, "clause": "every first touch of the neutron data serves the rows of the table", "timeout": 1500}]
 
 
 REPLAY = {"module": "c07", "task": "replay"}
